@@ -99,13 +99,13 @@ func cmdFunc(args []string) {
 				if or.Status == "skipped" {
 					continue
 				}
-				if *verbose || (or.Status != "discharged" && or.Status != "cover-ok") {
+				if *verbose || (or.Status != "discharged" && or.Status != "cover-ok" && or.Status != "cover-notrefuted") {
 					fmt.Printf("   %-13s %-60s %s [%s %dms] %s\n", or.Status, or.Obl.Name, or.Obl.Pos, or.Solve.Backend, or.Solve.Millis, or.Obl.Src)
 				}
 			}
 			n := 0
 			for _, or := range r.Results {
-				if or.Status == "discharged" || or.Status == "cover-ok" {
+				if or.Status == "discharged" || or.Status == "cover-ok" || or.Status == "cover-notrefuted" {
 					n++
 				}
 			}
